@@ -192,7 +192,7 @@ def check(P, R, tier):
             opts = set()
             for g in gs:
                 opts |= set(_re.findall(r"\b(\w+_(?:arg|flag|nargs|args))\b", expr_text(strip(g["cond"]))))
-            site = "%s: %s(%s)" % (fn.file, nm, passed)
+            site = "%s: %s(%s)" % (fn.file.rsplit("/", 1)[-1], nm, passed)
             if passed != PAIR[nm]:
                 R.finding("RF7a-opt", fn, site, "%s installs the %s side of the name tables and is handed the value of `%s`; the option "
                           "for that side is `%s`" % (nm, "input" if nm == "setilocale" else "output", passed, PAIR[nm]), n)
